@@ -1360,9 +1360,11 @@ class ConstrainedList(MutableSequence[_T], Generic[_T]):
                 self._item_set_hook([self._list[index]], [value], self._list)  # type: ignore
             self._list[index] = value  # type: ignore
             return
+        # materialise the new items once: `value` may be a one-shot iterator, which the hook would otherwise exhaust
+        new_items = list(value)  # type: ignore
         if self._item_set_hook is not None:
-            self._item_set_hook(self._list[index], list(value), self._list)  # type: ignore
-        self._list[index] = value  # type: ignore
+            self._item_set_hook(self._list[index], new_items, self._list)
+        self._list[index] = new_items
 
     @overload
     def __delitem__(self, index: int) -> None: ...
